@@ -4,7 +4,8 @@
     tmpl <hex template> <hexA> <hexB> <hexListenPort> <hexCurrentPostConf> <bits X Y CacheEnabled ClientReporting SetPort0>
         render with the data struct of the harness:  ok <hex> | err | unsupported
     router <fw> <ops> <report 0|1> <hex CacheSize> <cacheOn 0|1> <hex initial listen> <state tokens…>
-        run the op string (N = New, C = Configure, S = Setup, R = Restore, D = router.New().String())
+        run the op string (N = New, C = Configure, S = Setup, R = Restore, D = router.New().String(),
+        x / y = Setup while the 1st / 2nd service command fails once, v / w = the same for Configure)
         from the given initial state; after every op print the result and the whole state.
         state tokens:  F:<path>=<hex>   U:<key>=<hex>,<hex>…   N:<hexname>=<hex>
     gentmpl <fw>
@@ -118,6 +119,21 @@ def runOp (fw : Fw) (st : RunSt) (op : Char) : Option (String × RunSt) :=
     | some o =>
       let r := setup c names vars fw o st.sys
       some (s!"S:{okS r.1}", { st with sys := r.2.2, obj := some r.2.1 })
+  | 'x' | 'y' =>
+    -- Setup in a world where its 1st ('x') / 2nd ('y') service command fails once
+    match st.obj with
+    | none => some (s!"{op}:-", st)
+    | some o =>
+      let r := setup (faultConsts c (if op = 'x' then 1 else 2)) names vars fw o st.sys
+      some (s!"{op}:{okS r.1}", { st with sys := r.2.2, obj := some r.2.1 })
+  | 'v' | 'w' =>
+    -- Configure in such a world (ddwrt runs its setup from Configure when the cache is on)
+    match st.obj with
+    | none => some (s!"{op}:-", st)
+    | some o =>
+      let r := configure (faultConsts c (if op = 'v' then 1 else 2)) names vars fw o st.cfg st.sys
+      some (s!"{op}:{okS r.1} listens={hexList r.2.2.1.listens} cs={toHexOrDash r.2.2.1.cacheSize}",
+            { sys := r.2.2.2, cfg := r.2.2.1, obj := some r.2.1 })
   | 'R' =>
     match st.obj with
     | none => some ("R:-", st)
